@@ -261,7 +261,7 @@ func runProperty(prop, tier, repo, verif string, opts RunOpts, workers int, noRe
 	}
 	var hs []*HarnessSpec
 	for _, h := range P.harness {
-		if h.Prop != prop {
+		if !h.hasProp(prop) {
 			continue
 		}
 		if h.Tier == "thorough" && tier != "thorough" {
